@@ -151,6 +151,16 @@ class Analysis:
             b, i = kids(e)
             bs = strip(b)
             if bs.get('kind') == 'DeclRefExpr':
+                al = self.pointer_alias(bs['referencedDecl']['id'])
+                if al is not None and al[0] == 'row':
+                    # `double *piece = S->data[i]; piece[k]` is cell (i, k) of S: one dimension per column, as for S->data[i][k]
+                    col = fe.int_value(i)
+                    return self.col_form(al[1], col if col is not None else '*')
+                if al is not None and al[0] == 'vec':
+                    return self.col_form(al[1], 'e')
+                if '*' in bs.get('type', {}).get('qualType', '') and fe.int_value(i) is not None:
+                    # a raw pointer of unknown origin subscripted with a constant may be a record with one meaning per position
+                    return Form.var(('arr', bs['referencedDecl']['id'], fe.int_value(i)))
                 return Form.var(('arr', bs['referencedDecl']['id']))
             if bs.get('kind') == 'ArraySubscriptExpr':
                 bb = strip(kids(bs)[0])
@@ -158,10 +168,82 @@ class Analysis:
                     col = fe.int_value(i)
                     ck = self.container_key(kids(bb)[0])
                     return self.col_form(ck, col if col is not None else '*')
+                if bb.get('kind') == 'DeclRefExpr':
+                    al = self.pointer_alias(bb['referencedDecl']['id'])
+                    if al is not None and al[0] == 'rows':
+                        col = fe.int_value(i)
+                        return self.col_form(al[1], col if col is not None else '*')
             if bs.get('kind') == 'MemberExpr' and bs.get('name') == 'data':
                 ck = self.container_key(kids(bs)[0])
                 return self.col_form(ck, 'e')
         return None
+
+    def sentinel_bound(self, e):
+        """a local whose every definition is built from literals only and mentions the MISSING literal (`lo = MISSING - 1e-2`)"""
+        e = strip(e)
+        while e.get('kind') == 'ParenExpr':
+            e = strip(kids(e)[0])
+        if e.get('kind') != 'DeclRefExpr' or e['referencedDecl'].get('kind') != 'VarDecl':
+            return False
+        did = e['referencedDecl']['id']
+        defs = []
+        for n in walk(self.f.body):
+            if n.get('kind') == 'VarDecl' and n.get('id') == did and kids(n):
+                defs.append(kids(n)[-1])
+            elif n.get('kind') in ('BinaryOperator', 'CompoundAssignOperator') and n.get('opcode', '').endswith('=') and \
+                    n.get('opcode') not in ('==', '!=', '<=', '>=') and fe.ref_id(kids(n)[0]) == did:
+                defs.append(kids(n)[1] if n.get('opcode') == '=' else None)
+        if not defs or any(d is None for d in defs):
+            return False
+        for d in defs:
+            if any(x.get('kind') in ('DeclRefExpr', 'CallExpr', 'MemberExpr', 'ArraySubscriptExpr') for x in walk(d)):
+                return False
+            if not any(x.get('kind') in ('IntegerLiteral', 'FloatingLiteral') and literal_value(x) == self.MISS for x in walk(d)):
+                return False
+        return True
+
+    def pointer_alias(self, did):
+        """a local pointer that caches storage of a container: ('row', key) for `M->data[i]`, ('rows', key) for `M->data` of a matrix,
+        ('vec', key) for `v->data` of a vector; None when the local has any other definition or definitions that disagree"""
+        cache = self.__dict__.setdefault('_alias', {})
+        key = (self.f.name, did)
+        if key in cache:
+            return cache[key]
+        found = set()
+        for n in walk(self.f.body):
+            rhs = None
+            if n.get('kind') == 'VarDecl' and n.get('id') == did:
+                qt = n.get('type', {}).get('qualType', '')
+                if '*' not in qt or 'double' not in qt:
+                    found.add(None)
+                    break
+                if kids(n):
+                    rhs = kids(n)[-1]
+            elif n.get('kind') == 'BinaryOperator' and n.get('opcode') == '=' and fe.ref_id(kids(n)[0]) == did:
+                rhs = kids(n)[1]
+            elif n.get('kind') in ('CompoundAssignOperator',) and fe.ref_id(kids(n)[0]) == did:
+                found.add(None)
+            elif n.get('kind') == 'UnaryOperator' and n.get('opcode') in ('++', '--') and fe.ref_id(kids(n)[0]) == did:
+                found.add(None)
+            if rhs is None:
+                continue
+            r = strip(rhs)
+            while r.get('kind') in ('ParenExpr', 'CStyleCastExpr'):
+                r = strip(kids(r)[-1])
+            if r.get('kind') == 'ArraySubscriptExpr' and strip(kids(r)[0]).get('kind') == 'MemberExpr' and strip(kids(r)[0]).get('name') == 'data':
+                found.add(('row', self.container_key(kids(strip(kids(r)[0]))[0])))
+            elif r.get('kind') == 'ArraySubscriptExpr' and strip(kids(r)[0]).get('kind') == 'DeclRefExpr' and \
+                    strip(kids(r)[0])['referencedDecl']['id'] != did and \
+                    (self.pointer_alias(strip(kids(r)[0])['referencedDecl']['id']) or (None,))[0] == 'rows':
+                found.add(('row', self.pointer_alias(strip(kids(r)[0])['referencedDecl']['id'])[1]))
+            elif r.get('kind') == 'MemberExpr' and r.get('name') == 'data':
+                qt = r.get('type', {}).get('qualType', '')
+                found.add(('rows' if qt.count('*') >= 2 else 'vec', self.container_key(kids(r)[0])))
+            else:
+                found.add(None)
+        res = list(found)[0] if len(found) == 1 else None
+        cache[key] = res
+        return res
 
     def col_form(self, ck, col):
         if ck[0] == 'p' and (ck[1], ck[2], col) in SEEDS:
@@ -198,6 +280,8 @@ class Analysis:
                 da, db = self.dim(a), self.dim(b)
                 return self.same(e, da, db)
             if op in ('<', '>', '<=', '>=', '==', '!='):
+                if self.sentinel_bound(a) or self.sentinel_bound(b):
+                    return None          # comparison with a bound of the MISSING sentinel (hoisted ApproxEq): exempt like the idiom itself
                 self.same(e, self.dim(a), self.dim(b))
                 return None
             if op in ('&&', '||'):
